@@ -66,6 +66,7 @@ def hungarian_max(W):
     return ("opt", asg, [-u[i] for i in range(1, n + 1)], [-v[j] for j in range(1, n + 1)])
 
 class C04(Prop):
+    parallel = 16    # thorough tier: 4^9 matrices, each solved in a forked, killable worker
     pid = "C04"
     sources = ["socialchoicekit/deterministic_allocation.py"]
     groups = {"mwm": Group("mwm", "From SCK Require Import MWMCheck.", "MWMCheck.mwm_case", "MWMCheck.chk_mwm")}
